@@ -1461,7 +1461,9 @@ class Store:
 
             # get the daughter processes
             if 'processes' in daughter or 'steps' in daughter:
-                processes = daughter['processes']
+                # (a copy of the dictionaries: the update stays the
+                # caller's)
+                processes = deep_copy_internal(daughter['processes'])
                 deep_merge_check(processes, daughter.get('steps', {}))
             else:
                 # if no processes provided, copy the mother's processes
